@@ -660,3 +660,29 @@ Definition dynamic_graffiti (primary : fetch) (fallback : option fetch) : outcom
       let ls := graffiti_lines d in
       bind (pick_domain (lenN ls)) (fun _ => Ok ls)
   end.
+
+(* ------------------------------------------------------------------------------------------- *)
+(* Specification-side definitions used by the theorems and by the check's predicate.            *)
+
+(* path 2: the relays that can be asked: a client that supplies bids and can unblind *)
+Definition good_relays (rs : list fetch_res) : list N :=
+  flat_map (fun r => match r with FClient id true true => [id] | _ => [] end) rs.
+Definition is_fetch_error (r : fetch_res) : bool :=
+  match r with FClient _ _ _ => false | _ => true end.
+
+(* path 3 *)
+Definition can_name (p : node_client) : bool := match p with NCName _ => true | _ => false end.
+
+(* path 4 *)
+Definition doc_has_null (d : doc) : bool :=
+  match d with
+  | DV2 d2 => existsb snd (d2_relays d2)
+              || existsb (fun p => match p with None => true | Some p => has_null_prelay p end) (d2_proposers d2)
+  | _ => false
+  end.
+
+(* path 7 *)
+Definition all_tolerated (l : list failure) : bool :=
+  forallb (fun f => match f with FTolerated => true | _ => false end) l.
+Definition has_null_failure (l : list failure) : bool :=
+  existsb (fun f => match f with FNull => true | _ => false end) l.
